@@ -47,19 +47,29 @@ pub fn via_ctor(asset: u64, is_buy: bool, px: f64, sz: f64, kind: &str, sp: u64)
 }
 
 fn show_json_order(j: &Value) -> String {
+    // tolerant of missing or retyped fields (printed as `?`), so that a change of the wire format shows
+    // up as a difference in the comparison instead of stopping the harness
     let typ = &j["order_type"];
+    let s = |v: &Value| v.as_str().map(|x| x.to_lowercase()).unwrap_or_else(|| "?".into());
     let kind = if let Some(l) = typ.get("Limit") {
-        format!("L:{}", l["tif"].as_str().unwrap().to_lowercase())
+        format!("L:{}", s(&l["tif"]))
+    } else if let Some(t) = typ.get("Trigger") {
+        format!(
+            "T:{}:{}:{}",
+            t["trigger_px"].as_f64().map(fb).unwrap_or_else(|| "?".into()),
+            t["is_market"].as_bool().map(|b| if b { "1" } else { "0" }).unwrap_or("?"),
+            s(&t["tpsl"])
+        )
     } else {
-        let t = &typ["Trigger"];
-        format!("T:{}:{}:{}", fb(t["trigger_px"].as_f64().unwrap()), if t["is_market"].as_bool().unwrap() { 1 } else { 0 }, t["tpsl"].as_str().unwrap().to_lowercase())
+        "?".to_string()
     };
+    let num = |v: &Value| v.as_str().and_then(|x| x.parse::<f64>().ok()).map(fb).unwrap_or_else(|| "?".into());
     format!(
         "{} {} {} {} {}",
-        j["asset"].as_u64().unwrap(),
-        if j["is_buy"].as_bool().unwrap() { 1 } else { 0 },
-        fb(j["limit_px"].as_str().unwrap().parse::<f64>().unwrap()),
-        fb(j["sz"].as_str().unwrap().parse::<f64>().unwrap()),
+        j["asset"].as_u64().map(|x| x.to_string()).unwrap_or_else(|| "?".into()),
+        j["is_buy"].as_bool().map(|b| if b { "1" } else { "0" }).unwrap_or("?"),
+        num(&j["limit_px"]),
+        num(&j["sz"]),
         kind
     )
 }
